@@ -67,6 +67,7 @@ func exec(t []string) string {
 		}
 		bs, _ := regnet.ParseBlock(spec)
 		blk := sim.N.ByID(bs.ID)
+		_, seenBefore := delivered[blk.Hash()]
 		delivered[blk.Hash()] = blk
 		after, ah := sim.N.Tip()
 		// (1) the active chain is valid
@@ -82,6 +83,30 @@ func exec(t []string) string {
 			pending = &hx.Violation{Kind: "failed-switch-left-partial-chain",
 				Detail: fmt.Sprintf("ProcessBlock returned an error (%s) but the tip moved from %s to %s (height %d)", sim.LastErr, regnet.ID(before), regnet.ID(after), ah)}
 			return out
+		}
+		// (4) a new block that makes a fully valid chain the unique heaviest one is adopted — also after a failed
+		// switch (this is how the node gets off the stump the known finding leaves it on)
+		if !seenBefore && !strings.HasPrefix(out, "orphan") {
+			if w := validWork(blk); w != nil {
+				unique := true
+				for _, b := range delivered {
+					if b.Hash() == blk.Hash() {
+						continue
+					}
+					if w2 := validWork(b); w2 != nil && w2.Cmp(w) >= 0 {
+						unique = false
+						break
+					}
+				}
+				if unique {
+					if after != blk.Hash() {
+						pending = &hx.Violation{Kind: "heaviest-valid-block-not-adopted",
+							Detail: fmt.Sprintf("block %s (height %d, work %v) makes its valid chain the heaviest known, reply %q, tip %s at height %d", regnet.ID(blk.Hash()), blk.Height, w, out, regnet.ID(after), ah)}
+						return out
+					}
+					failedSwitch = false
+				}
+			}
 		}
 		// (3) no known valid chain carries more work (not judged after a failed switch: consequence of (2))
 		if !failedSwitch {
@@ -251,6 +276,14 @@ func tree(g *hx.Gen, idx int) {
 		}
 		if r.Chance(20) { // the same block again
 			h.Deliver(blks[r.Intn(len(blks))])
+		}
+		// after a failed switch (the node is neither on the trunk nor on the branch) the old chain grows by a
+		// block: the node has to come back to it
+		if th, _ := sim.N.Tip(); th != sim.BranchTip(trunk).Hash() && th != sim.BranchTip(br).Hash() && r.Chance(75) {
+			b := h.HonestBlock(trunk, 1)
+			trunk = regnet.Extend(trunk, b)
+			h.Deliver(b)
+			h.Observe(false, 4)
 		}
 		// grow the trunk a little between branches when the node is still on it
 		tipHash, _ := sim.N.Tip()
